@@ -1181,6 +1181,35 @@ pub fn gen_world(rng: &mut Rng, cfg: &GenCfg) -> (FcWorld, GenInfo) {
       mods[p][0].footer.push_str(&format!("export function useLeaf{}(a: Leaf{}, b: Mid{}): void {{}}\n", p, p, p));
       count(&mut info, "named_import_through_two_star_hops");
     }
+    // a default export requested by a default import, while the same module is also reached through
+    // `export *` of a module that is only used through a namespace import (typeof ns) declared LATER
+    if rng.chance(20) {
+      let base = info.pkgs[p].base.clone();
+      js_extra.push((format!("{}shape{}.ts", base, p), format!("export default class Shape{} {{ a: number = 1; }}\nexport const unit{}: number = 1;\n", p, p)));
+      js_extra.push((format!("{}xs{}.ts", base, p), format!("export * from \"./shape{}.ts\";\nexport const extra{}: string = \"\";\n", p, p)));
+      mods[p][0].header.push_str(&format!("import Shape{} from \"./shape{}.ts\";\nimport * as xs{} from \"./xs{}.ts\";\n", p, p, p, p));
+      mods[p][0].footer.push_str(&format!("export function mkShape{}(s: Shape{}): void {{}}\nexport const nsx{}: typeof xs{} = xs{};\n", p, p, p, p, p));
+      count(&mut info, "default_import_and_star_via_namespace");
+    }
+    // a class reached ONLY through a qualified reference that goes below a static member
+    // (typeof C.member.field): its heritage clause and member types mention declarations nothing else uses
+    if rng.chance(20) {
+      mods[p][0].footer.push_str(&format!(
+        "class QBase{p} {{ b: number = 1; }}\ninterface QOpt{p} {{ verbose: boolean; }}\nclass QReg{p} extends QBase{p} {{ static defaults: QOpt{p} = {{ verbose: true }}; }}\nexport type QVerbose{p} = typeof QReg{p}.defaults.verbose;\n",
+        p = p
+      ));
+      count(&mut info, "class_reached_only_through_qualified_reference");
+    }
+    // modules in sub-directories: a parent-relative specifier (../lib/x.js) whose types live in another
+    // file (reference types), so the emitted specifier is rewritten to the types module
+    if rng.chance(20) {
+      let base = info.pkgs[p].base.clone();
+      js_extra.push((format!("{}lib/r{}.js", base, p), format!("/// <reference types=\"./r{}.d.ts\" />\nexport function rnd{}() {{ return 4; }}\n", p, p)));
+      js_extra.push((format!("{}lib/r{}.d.ts", base, p), format!("export declare function rnd{}(): number;\n", p)));
+      js_extra.push((format!("{}sub/u{}.ts", base, p), format!("export * from \"../lib/r{}.js\";\nexport interface U{} {{ u: string }}\n", p, p)));
+      mods[p][0].footer.push_str(&format!("export * from \"./sub/u{}.ts\";\n", p));
+      count(&mut info, "parent_relative_specifier_with_types_module");
+    }
   }
   // bodies
   for p in 0..mods.len() {
